@@ -115,9 +115,13 @@ def handleServe (op : String) (args : List String) (impl : Option (List String))
         let showLog := fun (ls : List String) => "[" ++ String.intercalate "|" (ls.map logLine) ++ "]"
         let showUnit := fun (r : Rpc.CallRes Unit) => match r with
           | .ok _ => "ok" | .err e => "err:" ++ hexOrDash e | .connErr => "connerr"
+        -- third field: the arguments the served agent retained still read the same after later
+        -- requests on the connection
         let mk := fun (model spec : List String) =>
-          some (⟨model, impl.map fun out => if out.head? == some "crash" then "bad:crash"
-            else if out == ["hang"] then "bad:hang" else if out == spec then "ok" else "bad:rpc-" ++ opName⟩ : Reply)
+          some (⟨model ++ ["late=same"], impl.map fun out => if out.head? == some "crash" then "bad:crash"
+            else if out == ["hang"] then "bad:hang"
+            else if out.take 2 == spec ∧ out.drop 2 != ["late=same"] then "bad:argument-changed-after-delivery"
+            else if out == spec ++ ["late=same"] then "ok" else "bad:rpc-" ++ opName⟩ : Reply)
         match opName, params with
         | "addhard", [blobS, commentS, pkS] =>
           match bytesOfHex blobS, bytesOfHex commentS, boolOf01 pkS with
